@@ -19,7 +19,7 @@ CLAIMED = {
  'C12': dict(engine='bins', cat='exploration', design='5 C12',
    text='Seeded tagged BAMs (sites forced onto bin/job boundaries, sites owned by another job than the read start, filtered records) are counted through the real generate_commands/count_fragments_binned/obtain_counts for every bins_per_job in 1..10 plus whole-contig jobs, each under a seeded SimPool completion order and pool width; the returned dict must equal a one-scan reference model (hence be identical across splits and schedules, total = number of counting records). Sampled inputs and orders: evidence, not proof.',
    note='Trusts SimPool (atomic job bodies, pickled args/results) and the reference model; sites stay within max_fragment_size of their read (documented look-around contract).',
-   tech='deterministic simulation: seeded job-partition x worker-completion-order exploration under a simulated process pool, plus in-process histories (file re-written, other configuration, first configuration again), checked against an executable reference model; one forked process per case'),
+   tech='deterministic simulation: seeded job-partition x worker-completion-order exploration under a simulated process pool (chunked task delivery as multiprocessing does it), plus in-process histories (file re-written, other configuration, first configuration again), checked against an executable reference model; one forked process per case'),
  'C18': dict(engine='alleles', cat='exploration', design='5 C18, 12.5',
    text='Seeded VCFs x histories of process lifetimes that share only the on-disk cache directory; each lifetime draws (lazyLoad,use_cache) from all four combinations, possibly another select_samples/ignore_conversions/phased than the previous one, and an access sequence with absent contigs/positions, revisits of evicted contigs and one-read molecules tagged with the resolver (DA assignment). Fault kinds: a lifetime killed at a line of write_cache or hitting EFBIG while it writes the cache (forked child), and a transient EMFILE on the n-th open of a cache file for reading. Every getAllelesAt/has_location/molecule-allele answer (except the one lookup that meets a transient read failure) must equal the eager cache-less resolver of that configuration and a VCF model on clear-cut sites. Sampled histories: evidence, not proof.',
    note='Trusts pysam VCF parsing and the clear-cut-site model. Only durable state (the cache directory) survives a lifetime.',
@@ -35,7 +35,7 @@ CLAIMED = {
  'C20': dict(engine='status', cat='fault_enumeration', design='5 C20, 12.5',
    text='For each seeded (workload, pipeline single/--multiprocess, method nla/chic, initial state empty/stale-success; special layouts and --no_rejects rotate deterministically) a fault-free traced lifetime records the crash-point map and is itself held to the oracle; then the fault family is enumerated: a true kill (os._exit in the forked child) at every distinct executed (function,line) of the pipeline functions in 5 occurrence classes, an exception at every I/O seam x call-index class x error including failing sort/merge calls that leave partial output behind and a sort failing at all temp locations, worker exception/loss in every job, and (thorough) real EFBIG via RLIMIT_FSIZE at 24 quantiles. Oracle: status says success only if the output BAM exists, has an EOF block, scans to the end, is coordinate sorted, has a usable index and holds the records the statement requires. Enumeration over faults, sampling over workloads.',
    note='Trusts: kill = os._exit at Python line granularity of the watched functions (C-level htslib writes are only split by RLIMIT_FSIZE); exceptions only at I/O seams; SimPool for worker faults. Power-loss/fsync ordering and corruption of stored input bytes are outside the statement.',
-   tech='deterministic simulation: crash-point enumeration by line-event tracing with os._exit in forked lifetimes, exception plans at the read and write I/O seams (I/O errors, failing allocation, partial output), simulated worker loss, RLIMIT_FSIZE, fault-free recovery lifetime on the debris; post-mortem oracle on the surviving directory'),
+   tech='deterministic simulation: crash-point enumeration by line-event tracing with os._exit in forked lifetimes, exception plans at the read and write I/O seams (I/O errors, failing allocation, partial output), simulated worker loss, SIGINT inside the blocking wait for a result, RLIMIT_FSIZE, fault-free recovery lifetime on the debris, initial states left by earlier lifetimes (same or another input); post-mortem oracle on the surviving directory'),
  'C08': dict(engine='parallel', cat='exploration', design='5 C08',
    text='The same seeded input BAM (dense libraries, molecules straddling tile edges, sites on tile boundaries, unplaced and invalid fragments) is tagged serially (S), with --multiprocess contig-per-process (P) and twice through the region-tiling API (T: bp_per_segment 30..5000, bp_per_job, fragment_size >= longest fragment, sometimes > segment) under a SimPool of width 1..8 and seeded completion orders. Oracle: multiset of full canonical records (flags, mate fields, every tag except mi/ix) identical across S/P/T; each molecule written by exactly one job, in T the job whose bin contains its site. Sampled inputs/tilings/orders: evidence, not proof.',
    note='Trusts SimPool and the capture of the CLI-built iterator arguments for the tiling API; margins shorter than a fragment are outside the precondition and not generated.',
